@@ -189,7 +189,7 @@ def cs_wire(img) -> str:
     k = img["kind"]
     long = {"gray8": "DeviceGray", "rgb8": "DeviceRGB", "bit1": "DeviceGray", "jpeg-gray": "DeviceGray",
             "jpeg-rgb": "DeviceRGB"}[k]
-    if img.get("place") == "inline" and img.get("abbr", True):
+    if img.get("place") == "inline" and IL.cs_value_short(img):
         long = IL.CS_ABBR[k]
     return tok(long)
 
@@ -727,13 +727,18 @@ def fix_inline(rng, img) -> None:
     img["after"] = rng.choice(["0a", "20", "0d0a", "09"])
     img["id_ws"] = rng.choice([" ", "\n"])
     img["abbr"] = rng.random() < 0.75
+    if rng.random() < 0.5:
+        img["spell"] = IL.random_spell(rng)      # every key / value spelled short or in full independently
+    if rng.random() < 0.3:
+        img["extras"] = IL.random_extras(rng)
     if img["kind"].startswith("jpeg"):
         img["filters"] = ["A85", "DCT"] if "A85" in img["filters"] else (["AHx", "DCT"] if rng.random() < 0.5 else ["DCT"])
     for _ in range(50):
         payload = IL.encode_chain(bytes.fromhex(img["data"]), img.get("filters", []), None)
         first = (img.get("filters") or [""])[0]
-        target = b"~>" if first == "A85" else b"EI"
-        body = payload[:-2] if first == "A85" else payload
+        a85_marker = first == "A85" and IL.filter_key_short(img)      # do_keyword looks at /F only
+        target = b"~>" if a85_marker else b"EI"
+        body = payload[:-2] if a85_marker else payload
         if not IL.has_marker(body + bytes.fromhex(img["sep"]), target) and not \
                 (first == "A85" and IL.has_marker(payload + bytes.fromhex(img["sep"]) + b"EI", b"~>") and False):
             return
@@ -854,6 +859,10 @@ def gen_inline_case(rng, in_domain: bool) -> Dict[str, Any]:
             "id_ws": rng.choice(["20", "0a", "20", "0d"]), "abbr": rng.random() < 0.8,
             "bufsiz": rng.choice([1, 2, 3, 4, 5, 7, 8, 16, 33, 64, 4096, 4096])}
     case.update(inline_dims(rng, len(data), in_domain))
+    if rng.random() < 0.5:
+        case["spell"] = IL.random_spell(rng)
+    if rng.random() < 0.3:
+        case["extras"] = IL.random_extras(rng)
     return case
 
 
@@ -878,10 +887,11 @@ def inline_dims(rng, n: int, in_domain: bool) -> Dict[str, Any]:
 
 def inline_dict_of(case) -> Dict[str, Any]:
     img = {"kind": case.get("kind", "gray8"), "w": case.get("w", 2), "h": case.get("h", 2),
-           "filters": []}
+           "filters": [], "spell": case.get("spell"), "extras": case.get("extras")}
     d = IL.image_dict(img, True, case.get("abbr", True))
     if case.get("flt"):
-        d["F" if case.get("abbr", True) else "Filter"] = case["flt"] if case.get("abbr", True) else \
+        sp = case.get("spell") or {"F": case.get("abbr", True), "Fv": case.get("abbr", True)}
+        d["F" if sp["F"] else "Filter"] = case["flt"] if sp["Fv"] else \
             {"Fl": "FlateDecode", "LZW": "LZWDecode", "DCT": "DCTDecode", "RL": "RunLengthDecode"}[case["flt"]]
     return d
 
@@ -917,7 +927,8 @@ def inline_verdict(case) -> Optional[Tuple[str, Any, Any, Dict[str, Any]]]:
     pre, _ = impl_tokens(bytes.fromhex(case["prefix"]), bufsiz)
     suf, _ = impl_tokens(bytes.fromhex(case["suffix"]), bufsiz)
     d = inline_dict_of(case)
-    imgtok = "img{" + ",".join(k + "=" + ("n:" + v if isinstance(v, str) else "i:%d" % v) for k, v in sorted(d.items())) + \
+    imgtok = "img{" + ",".join(k + "=" + ("n:" + v if isinstance(v, str) else ("b:%d" % v if isinstance(v, bool) else "i:%d" % v))
+                               for k, v in sorted(d.items())) + \
              "}:" + C.hx(data)
     exp = pre + [imgtok, "k:EI"] + suf
     tags = {"area": "inline", "data_ends_cr": data.endswith(b"\r"), "sep": case["sep"], "after": case["after"],
